@@ -384,22 +384,44 @@ def rule_flg1(A: Analysis, rep):
         rep.check(ra is not None and norm(ra) == "args.again" and al is not None and norm(al) == "commit", "FLG1", "flags reach the planner", c, "",
                   "create_plan_for(run_again=%s, at_least_commit=%s)" % (norm(ra) if ra else "?", norm(al) if al else "?"))
     # commit := rev_parse(at_least or HEAD) under (this_commit or at_least), None otherwise; not-an-ancestor raises
-    defs = [d for d in A.defs(rm, "commit") if isinstance(d, ast.Assign)]
-    vals = sorted(A.xtext(d.value, rm) for d in defs)
-    okc = len(vals) == 2 and "None" in vals and any(v.endswith(".git.rev_parse(args.at_least if args.at_least is not None else 'HEAD')") for v in vals)
-    rep.check(okc, "FLG1", "commit = rev-parse(at_least | HEAD)", rm.node, "", "`commit` is derived as %s" % vals)
+    # commit := rev_parse(at_least or "HEAD") when a commit flag is given, None otherwise; failures rejected
+    rp = [c for c in walk_local(rm.node) if isinstance(c, ast.Call) and A.res.is_call_to(c, "Git.rev_parse")]
+    okc = len(rp) == 1
+    det = "%d rev_parse call(s)" % len(rp)
+    if okc:
+        av = A.rvalues(rm, rp[0].args[0], _stmt_of(rp[0]), g, keep=lambda a: a == "none(args.at_least)", depth=2)
+        okc = set(av) == {(frozenset({("none(args.at_least)", False)}), "args.at_least"), (frozenset({("none(args.at_least)", True)}), "'HEAD'")}
+        gs = A.path_guards(g, g.entry, g.node_of(_stmt_of(rp[0])), rm)
+        flagged = bool(gs) and all(("t(args.this_commit)", True) in c or ("none(args.at_least)", False) in c for c in gs)
+        okc = okc and flagged
+        det = "rev_parse argument takes %s; reached only with a commit flag=%s" % ([(fmt_conj(c), v) for c, v in av], flagged)
+    rep.check(okc, "FLG1", "commit = rev-parse(at_least | HEAD)", rm.node, "", det)
+    # the value handed to the planner is that result (or None without a commit flag)
+    if plan:
+        c = A.calls_in(plan[0].ast, "ExecutionPlanner.create_plan_for")[0]
+        al = A.kw(c, "at_least_commit")
+        pv = A.rvalues(rm, al, plan[0], g, keep=lambda a: False, depth=3, calls=True) if al is not None else []
+        vals = {v for _c, v in pv}
+        nn = vals - {"None"}
+        rep.check("None" in vals and bool(nn) and all(".git.rev_parse(" in v and v.endswith(")") and v.count("rev_parse(") == 1 for v in nn), "FLG1",
+                  "the parsed commit reaches the planner", c, "", "at_least_commit takes %s" % sorted(vals))
     raises = {A.exc.exc_class(n.ast.exc).rsplit(".", 1)[-1]: n for n in g.nodes if n.kind == "stmt" and isinstance(n.ast, ast.Raise) and n.ast.exc is not None and A.exc.exc_class(n.ast.exc)}
     ok = False
     if "AtLeastCommitNotAncestor" in raises:
         gs = A.path_guards(g, g.entry, raises["AtLeastCommitNotAncestor"], rm)
         ok = bool(gs) and all(any("is_ancestor(" in a and not p for a, p in cj) for cj in gs)
-        ok = ok and all(g.all_paths_pass(raises["AtLeastCommitNotAncestor"], p, [], skip_labels=skip) or True for p in plan)
     rep.check(ok, "FLG1", "non-ancestor --at-least rejected", rm.node, "", "a commit that is not an ancestor of HEAD is not rejected")
     ok = False
-    if "InvalidCommitSymbol" in raises:
+    if "InvalidCommitSymbol" in raises and rp:
+        res_name = norm(_stmt_of(rp[0]).targets[0]) if isinstance(_stmt_of(rp[0]), ast.Assign) else None
         gs = A.path_guards(g, g.entry, raises["InvalidCommitSymbol"], rm)
-        ok = bool(gs) and all(any(a.startswith("none(") and ".rev_parse(" in a and p for a, p in cj) or ("none(parsed_commit)", True) in cj for cj in gs)
-    rep.check(ok, "FLG1", "unknown commit rejected", rm.node, "", "an unresolvable commit symbol is not rejected")
+        ok = bool(gs) and res_name is not None and all(("none(%s)" % res_name, True) in cj for cj in gs)
+        # and the check comes before the result is used for the ancestry test / the plan
+        users = [n for n in g.nodes if n.kind in ("stmt", "test") and n.ast is not None and A.calls_in(n.ast, "Git.is_ancestor", "ExecutionPlanner.create_plan_for")]
+        chk = [n for n in g.nodes if n.kind == "test" and norm(n.ast) in ("%s is None" % res_name, "%s is not None" % res_name)]
+        rpn = g.node_of(_stmt_of(rp[0]))
+        ok = ok and bool(chk) and all(g.all_paths_pass(rpn, u, chk, skip_labels=skip) for u in users if g.reachable(rpn, u, skip_labels=skip))
+    rep.check(ok, "FLG1", "unknown commit rejected", rm.node, "", "an unresolvable commit symbol is not rejected before it is used")
     ug = A.fn("context.Context.uses_git")
     st = [s for s in walk_local(ug.node) if isinstance(s, ast.Assign) and norm(s.targets[0]) == "self._uses_git"]
     rep.check(len(st) == 1 and A.dnf(st[0].value, True, ug) == [frozenset({("t(self._config_file.disable_git)", False), ("t(self._git.is_used())", True)})], "FLG1", "uses_git = ¬disable_git ∧ git repo", ug.node, "",
